@@ -11,6 +11,12 @@ mod core;
 mod harness;
 mod plan;
 mod structcheck;
+mod sys_event;
+mod sys_mpmc;
+mod sys_mutex;
+mod sys_oneshot;
+mod sys_state;
+mod sys_timer;
 mod sys_sem;
 
 use crate::core::{Cfg, Opts, RunResult};
@@ -25,6 +31,30 @@ type NL = futures_intrusive::verif::NoopLock;
 macro_rules! systems {
     ($mac:ident) => {
         $mac! {
+            "event.local" => sys_event::Sys<NL>,
+            "event.std" => sys_event::Sys<PL>,
+            "oneshot.local" => sys_oneshot::Sys<sys_oneshot::BOne<NL>>,
+            "oneshot.std" => sys_oneshot::Sys<sys_oneshot::BOne<PL>>,
+            "oneshot.shared" => sys_oneshot::Sys<sys_oneshot::SOne<PL>>,
+            "bcast.local" => sys_oneshot::Sys<sys_oneshot::BBc<NL>>,
+            "bcast.std" => sys_oneshot::Sys<sys_oneshot::BBc<PL>>,
+            "bcast.shared" => sys_oneshot::Sys<sys_oneshot::SBc<PL>>,
+            "state.local" => sys_state::Sys<sys_state::Borrowed<NL>>,
+            "state.std" => sys_state::Sys<sys_state::Borrowed<PL>>,
+            "state.shared" => sys_state::Sys<sys_state::Shared<PL>>,
+            "timer.local" => sys_timer::Sys<sys_timer::Local>,
+            "timer.std" => sys_timer::Sys<sys_timer::Std>,
+            "mpmc.arrL0" => sys_mpmc::Sys<sys_mpmc::ArrL<0>>,
+            "mpmc.arrL1" => sys_mpmc::Sys<sys_mpmc::ArrL<1>>,
+            "mpmc.arrL2" => sys_mpmc::Sys<sys_mpmc::ArrL<2>>,
+            "mpmc.arrS0" => sys_mpmc::Sys<sys_mpmc::ArrS<0>>,
+            "mpmc.arrS1" => sys_mpmc::Sys<sys_mpmc::ArrS<1>>,
+            "mpmc.arrS2" => sys_mpmc::Sys<sys_mpmc::ArrS<2>>,
+            "mpmc.fixS" => sys_mpmc::Sys<sys_mpmc::FixS>,
+            "mpmc.shGrow" => sys_mpmc::Sys<sys_mpmc::ShGrow>,
+            "mpmc.shFix" => sys_mpmc::Sys<sys_mpmc::ShFix>,
+            "mutex.local" => sys_mutex::Sys<NL>,
+            "mutex.std" => sys_mutex::Sys<PL>,
             "sem.local" => sys_sem::Sys<sys_sem::Borrowed<NL>>,
             "sem.std" => sys_sem::Sys<sys_sem::Borrowed<PL>>,
             "sem.shared" => sys_sem::Sys<sys_sem::Shared<PL>>,
